@@ -79,6 +79,11 @@ int  mv_worker(void);            /* current worker index */
 long mv_now_ns(void);            /* virtual clock, ns since virtual epoch */
 void mv_clock_read(struct timespec * ts); /* read the virtual clock without a decision */
 long mv_steps(void);
+/* clock samples: value of a watched word at every clock read of a thread, with the number of token hand-offs so far
+   (switches) and at that thread's next clock read / now (next_switches): equal numbers = nobody else ran in between */
+typedef struct { void * thread; long now_ns; uint64_t value; long switches, next_switches; } mv_csample_t;
+void mv_watch(const volatile void * addr, size_t sz);
+int mv_clock_samples(void * thread, mv_csample_t * out, int max);
 /* ledger */
 long mv_ledger_outstanding(int kind);   /* handed out and not yet released */
 long mv_ledger_fresh(int kind);         /* distinct objects ever handed out */
